@@ -562,6 +562,23 @@ func wakeupRun(args []string) int {
 			}
 		}
 	}
+	// an interval beyond the largest representable time beside a short one: no starvation, no spin
+	neverBeside := 0
+	for k := 0; k < 2; k++ {
+		for _, neverFirst := range []bool{true, false} {
+			v, ok := wuNeverBeside(neverFirst)
+			if !ok {
+				setupFailures++
+				continue
+			}
+			neverBeside++
+			dist["park"]["never-beside"]++
+			distinct["never-beside/"+fmt.Sprint(neverFirst)] = true
+			if v != "" && len(viol) < 40 {
+				viol = append(viol, v)
+			}
+		}
+	}
 	if setupFailures > len(results)/10 {
 		viol = append(viol, fmt.Sprintf("C05 harness could not set up %d of %d scenarios (first: %s)", setupFailures, len(results), wuFirstSetup(results)))
 	}
@@ -576,8 +593,8 @@ func wakeupRun(args []string) int {
 	for i := 0; i < len(results) && len(samples) < 8; i += len(results)/8 + 1 {
 		samples = append(samples, results[i])
 	}
-	writeJSON(*out+"/stats.json", map[string]any{"seed": *seed, "evaluations": len(results) + duringStart, "distinct_nontrivial": len(distinct),
-		"distribution": dist, "violations": viol, "samples": samples, "during_start_scenarios": duringStart, "latency_ms": map[string]float64{"p50": pct(0.5), "p99": pct(0.99), "max": pct(1)},
+	writeJSON(*out+"/stats.json", map[string]any{"seed": *seed, "evaluations": len(results) + duringStart + neverBeside, "distinct_nontrivial": len(distinct),
+		"distribution": dist, "violations": viol, "samples": samples, "during_start_scenarios": duringStart, "never_beside_scenarios": neverBeside, "latency_ms": map[string]float64{"p50": pct(0.5), "p99": pct(0.99), "max": pct(1)},
 		"reruns": reruns, "setup_failures": setupFailures, "wall_s": time.Since(t0).Seconds(), "limit_ms": wuLimit.Milliseconds()})
 	fmt.Printf("wakeup: %d scenarios (%d distinct cells) in %.1fs, latency p50 %.2f ms p99 %.2f ms max %.2f ms, %d setup failures, %d violations\n",
 		len(results), len(distinct), time.Since(t0).Seconds(), pct(0.5), pct(0.99), pct(1), setupFailures, len(viol))
